@@ -197,6 +197,9 @@ def evaluate(root):
                 chk = Check(prop, "quick", repo)
                 mod = importlib.import_module("sa.rules." + prop.lower())
                 mod.run(chk, ctx)
+                if os.environ.get("MUTCOV_NO_REVIEWED") != "1":
+                    from sa.rules import reviewed
+                    reviewed.run(chk, ctx, prop)
                 viol = []
                 for f in chk.findings:
                     hit = any(k.get("rule") == f["rule"] and " ".join(k.get("key", "").split()) == f["key"] and
